@@ -4,6 +4,8 @@
 # http://docs.glueviz.org/en/stable/developer_guide/data.html and transparently
 # applying changes.
 
+from numbers import Integral
+
 from glue.core.hub import HubListener
 from glue.core.data import BaseCartesianData
 from glue.core.message import NumericalDataChangedMessage
@@ -136,8 +138,13 @@ class IndexedData(BaseCartesianData, HubListener):
         return self._original_data.get_kind(cid)
 
     def _to_original_view(self, view):
-        if view is None:
+        if view is None or view is Ellipsis:
             view = [slice(None)] * self.ndim
+        elif isinstance(view, (slice, Integral)):
+            view = [view]
+        if isinstance(view, (tuple, list)) and len(view) < self.ndim and not any(v is Ellipsis for v in view):
+            # views can have fewer elements than there are dimensions
+            view = list(view) + [slice(None)] * (self.ndim - len(view))
         original_view = list(self.indices)
         idim_reduced = 0
         for idim in range(self._original_data.ndim):
